@@ -2,7 +2,7 @@ SPEC = dict(
     id="C31",
     bin="c31",
     cases_quick=1500,
-    cases_thorough=60000,
+    cases_thorough=30000,
     level="proof",
     technique="Coq theorems over a Gallina model of Store::order_fee_discount_factor, GtState::{init(max_rank), set_order_fee_discount_factors, order_fee_discount_factor} and the SDK copy (generic in width and unit; invariant over whole update histories) + differential correspondence of program AND SDK (run on the same account bytes) with the model + range/formula/agreement oracle on both outputs",
     text="For every state reachable from GT init by any sequence of table updates (accepted or rejected) and referral-factor inserts: the discount is in [0, 100%]; the referred discount is >= the unreferred one and >= the referral discount, equal to 1-(1-rank)(1-referral) rounded down by < 1 unit; ranks above max_rank are rejected; tables with a factor above 100% are rejected; a referral factor above 100% makes the referred query fail; the SDK function is equal to the program function.",
